@@ -20,7 +20,7 @@ RULE = ("every Exception subclass of builtins and Pyro5.errors x argument tuples
 ASSUMPTIONS = ["classes that cannot be constructed from the value domain (e.g. ExceptionGroup) are counted as skipped",
                "StopIteration raised from an iterator's __next__ is the end of the stream, not an exception, so it is not used for the stream kind",
                "builtin slot attributes (OSError.filename, ImportError.name, ...) are neither args nor custom attributes"]
-REQUIRED_REACH = ["chained_exceptions_ok", "aftermath_cases", "concurrent_exceptions_checked", "exc_ok", "kind_plain", "kind_propget", "kind_propset", "kind_batch", "kind_stream", "unserialisable_ok", "unknown_class_ok", "next_call_ok", "codec_baseexc_ok", "handover_cases_ok", "big_batches"]
+REQUIRED_REACH = ["proxies_switched_serializer_on_live_connection", "chained_exceptions_ok", "aftermath_cases", "concurrent_exceptions_checked", "exc_ok", "kind_plain", "kind_propget", "kind_propset", "kind_batch", "kind_stream", "unserialisable_ok", "unknown_class_ok", "next_call_ok", "codec_baseexc_ok", "handover_cases_ok", "big_batches"]
 SHARD_TIMEOUT = {"quick": 240, "thorough": 2800}
 
 ARG_SHAPES = [(), ("msg",), ("msg", 2), (2, "strerror"), ("é\x00x", [1, {"k": None}], 2 ** 70, 1.5), ({"d": [1, 2.5, "s"]},), (None,), ("a", "b", "c", "d", "e", "f")]
@@ -573,7 +573,23 @@ def run_shard(shard, rec):
     try:
         armed, svc = make_service(P, registry)
         fx.register(svc, "svc")
-        p = fx.proxy("svc", serializer=sername, timeout=8.0)
+        switch_over = None
+        if (len(sername) + rec.seed) % 2:
+            p = fx.proxy("svc", serializer=sername, timeout=8.0)
+        else:
+            # the proxy connected (and made a call) with ANOTHER serializer and was switched over afterwards, on the live connection: from then on
+            # its requests - and the error replies to them - are in the serializer it uses now
+            other = fixture.SERIALIZERS[(fixture.SERIALIZERS.index(sername) + 1) % len(fixture.SERIALIZERS)]
+            p = fx.proxy("svc", serializer=other, timeout=8.0)
+
+            def switch_over():
+                # (again and again: some of the cases below cost the proxy its connection, and a fresh one is handshaken in the current serializer)
+                p._pyroRelease()
+                p._pyroSerializer = other
+                p._pyroBind()
+                p._pyroSerializer = sername
+                rec.count("proxies_switched_serializer_on_live_connection")
+            switch_over()
         tokn = [0]
         arg_rot = r.randrange(len(ARG_SHAPES))
         for ci, (cls, clsname) in enumerate(classes):
@@ -598,6 +614,8 @@ def run_shard(shard, rec):
                         if kind == "proxyiter" and issubclass(cls, AttributeError):
                             continue      # (Proxy.__iter__ reads an AttributeError as "no remote iterator" and falls back to indexing: its documented design)
                         tokn[0] += 1
+                        if switch_over is not None and tokn[0] % 20 == 1:
+                            switch_over()
                         check_case(fx, p, armed, cls, clsname, args, attrs, sername, kind, rec, "tok%d" % tokn[0])
         for extra in ("unserialisable-object", "unserialisable-lock", "unserialisable-arg", "unserialisable-slots", "unserialisable-getstate-runtimeerror",
                       "unserialisable-getstate-keyerror", "unserialisable-getstate-oserror", "unserialisable-repr-raises", "unserialisable-deep-nesting"):
